@@ -69,7 +69,7 @@ static void op_AdaptorPipeline(const jv *in, jout *out) {
     secp256k1_pubkey pk, enckey; secp256k1_ecdsa_signature sig; vh_adaptor_src src; int ret, dret, rret;
     jv_need(in, "key", key, 32); jv_need(in, "deckey", deckey, 32); jv_need(in, "msg", msg, 32);
     vh_adaptor_load_src(in, &src);
-    if (!secp256k1_ec_pubkey_create(CTX, &enckey, deckey)) { jo_int(out, "ret", -1); return; }
+    if (!secp256k1_ec_pubkey_create(CTX, &enckey, deckey)) { jo_int(out, "ret", 2); return; }
     vh_out_pk33(out, "enckey", &enckey);
     memset(asig, 0xAA, 162);
     ret = secp256k1_ecdsa_adaptor_encrypt(CTX, asig, key, &enckey, msg, src.fn, src.data);
